@@ -38,6 +38,7 @@ KNOBS = {
     "middlewares": (0, 3),
     "outcomes": {"ret": 6, "exc": 4, "baseexc": 2, "nores": 2, "requeue": 0},
     "p_probe": 0.85,
+    "p_warn_error": 0.06,
     "durations": {"zero": 3, "tiny": 3, "short": 4, "medium": 3, "long": 1, "poll": 1, "tie": 3, "vlong": 1},
 }
 
@@ -69,6 +70,8 @@ def gen(rs: int, tier: str, index: int) -> dict:
     elif index % 10 == 3 and s["config"]["workers"] == 1:
         # the real `taskiq worker` child entry point (cli/worker/run.py start_listen): it creates and configures the event loop itself
         s["config"]["entry"] = "cli"
+    from ._wcommon import sync_timeouts
+    sync_timeouts(s, rs, "c03synctimeout")
     return s
 
 
